@@ -18,28 +18,28 @@ theorem countDefaults_zero : ∀ (cs : Cases), countDefaults cs = 0 → hasDefau
     simp only [countDefaults, Bool.false_eq_true, if_false, Nat.zero_add] at h
     simp [hasDefault, countDefaults_zero r h]
 
-theorem trCases_nodefault (fuel : Nat) (env : Src.Env) (he : env.subst = []) (sw : String) : ∀ (cs : Cases) (k nt : Nat) (b : Src.B),
-    hasDefault cs = false → (Src.trCases fuel [] env (toSrcCases sw cs) k nt b).2.2.2 = none
+theorem trCases_nodefault (fuel : Nat) (sm : List Src.Macro) (env : Src.Env) (sw : String) : ∀ (cs : Cases) (k nt : Nat) (b : Src.B),
+    hasDefault cs = false → (Src.trCases fuel sm env (toSrcCases sw cs) k nt b).2.2.2 = none
   | .nil, k, nt, b, _ => by simp only [toSrcCases]; rw [trCases_nil]
   | .cons true _ _ _ r, k, nt, b, h => by simp [hasDefault] at h
   | .cons false name ps body r, k, nt, b, h => by
     simp only [hasDefault, Bool.false_or] at h
     simp only [toSrcCases]
-    rw [trCases_case fuel env he _ _ _ k nt b rfl rfl]
-    exact trCases_nodefault fuel env he sw r k nt b h
+    rw [trCases_case fuel sm env _ _ _ k nt b rfl rfl]
+    exact trCases_nodefault fuel sm env sw r k nt b h
 
-theorem trCases_hasdefault (fuel : Nat) (env : Src.Env) (he : env.subst = []) (sw : String) : ∀ (cs : Cases) (k nt : Nat) (b : Src.B),
-    hasDefault cs = true → (Src.trCases fuel [] env (toSrcCases sw cs) k nt b).2.2.2 ≠ none
+theorem trCases_hasdefault (fuel : Nat) (sm : List Src.Macro) (env : Src.Env) (sw : String) : ∀ (cs : Cases) (k nt : Nat) (b : Src.B),
+    hasDefault cs = true → (Src.trCases fuel sm env (toSrcCases sw cs) k nt b).2.2.2 ≠ none
   | .nil, k, nt, b, h => by simp [hasDefault] at h
   | .cons true _ _ body r, k, nt, b, _ => by
     simp only [toSrcCases]
-    rw [trCases_default fuel env _ _ _ k nt b rfl rfl]
+    rw [trCases_default fuel sm env _ _ _ k nt b rfl rfl]
     simp
   | .cons false name ps body r, k, nt, b, h => by
     simp only [hasDefault, Bool.false_or] at h
     simp only [toSrcCases]
-    rw [trCases_case fuel env he _ _ _ k nt b rfl rfl]
-    exact trCases_hasdefault fuel env he sw r k nt b h
+    rw [trCases_case fuel sm env _ _ _ k nt b rfl rfl]
+    exact trCases_hasdefault fuel sm env sw r k nt b h
 
 /-! ### the steps -/
 
@@ -50,11 +50,11 @@ theorem waitSem_nonone {cx : Cx} {fuel sL : Nat} {w : List (Option BP)} {hs dIn 
   | false => rw [h.dnone hn]; exact hd
 
 /-- a case handler with a block: with its labels, or folded into the header jumps -/
-theorem caseStep_c (cx : Cx) (fuel : Nat) (endL : Nat) (bp : BP) (hpos : bp.positive = true) (body : Stmts) {bodyM : M (List LItem)}
-    (hBody : ∀ env', EnvOK cx env' → PM cx bodyM (fun k b => Src.trStmts fuel [] env' (toSrcStmts body) k b) env')
+theorem caseStep_c (cx : Cx) (fuel : Nat) (env0 : Src.Env) (he0 : EnvOK cx env0) (endL : Nat) (bp : BP) (hpos : bp.positive = true) (body : Stmts) {bodyM : M (List LItem)}
+    (hBody : ∀ env', EnvOK cx env' → PM cx bodyM (fun k b => Src.trStmts fuel cx.sm env' (toSrcStmts body) k b) env')
     {st : SwSt} {s : St} {st' : SwSt} {s' : St} (hw : WaitOK st.waiting) (h : caseStep endL bp false bodyM st s = .ok (st', s')) :
     SameStk s s' ∧ st'.waiting = [] ∧ ∃ hs d1 ops sa sb n, st'.defaultOps = d1 ∧ bodyM sa = .ok (ops, sb) ∧
-      (∀ env', EnvOK cx env' → PieceOK cx ops sa sb (fun k b => Src.trStmts fuel [] env' (toSrcStmts body) k b) env') ∧
+      (∀ env', EnvOK cx env' → PieceOK cx ops sa sb (fun k b => Src.trStmts fuel cx.sm env' (toSrcStmts body) k b) env') ∧
       sa.loops = s.loops ∧ sa.cases = endL :: s.cases ∧ NamedLe sb s' ∧
       ((∃ sL eB, st'.hdrJumps = st.hdrJumps ++ (hs ++ [LItem.ljump ⟨n, bp.name, bp.params⟩ (some sL)]) ∧
           st'.caseOps = st.caseOps ++ ([LItem.label sL false] ++ ops ++ [LItem.label eB false]) ∧
@@ -70,7 +70,7 @@ theorem caseStep_c (cx : Cx) (fuel : Nat) (endL : Nat) (bp : BP) (hpos : bp.posi
   obtain ⟨_, rfl⟩ := h3
   obtain ⟨ops, sb, hrun, e2, hsh⟩ := case_block_shape h2
   have hP := fun env' he' => hBody env' he' _ _ _ hrun
-  have hP0 := hP {} (envOK_empty cx)
+  have hP0 := hP env0 he0
   have hstk : SameStk s s2.popCase := by
     refine ⟨?_, ?_, fun n id h => e2.3 n id (hP0.named n id h)⟩
     · show s2.loops = s.loops
@@ -111,14 +111,14 @@ theorem caseStep_c (cx : Cx) (fuel : Nat) (endL : Nat) (bp : BP) (hpos : bp.posi
     · simp only [hitems]
 
 /-- the default handler with a block -/
-theorem defaultStep_c (cx : Cx) (fuel : Nat) (endL : Nat) (body : Stmts) {bodyM : M (List LItem)}
-    (hBody : ∀ env', EnvOK cx env' → PM cx bodyM (fun k b => Src.trStmts fuel [] env' (toSrcStmts body) k b) env')
+theorem defaultStep_c (cx : Cx) (fuel : Nat) (env0 : Src.Env) (he0 : EnvOK cx env0) (endL : Nat) (body : Stmts) {bodyM : M (List LItem)}
+    (hBody : ∀ env', EnvOK cx env' → PM cx bodyM (fun k b => Src.trStmts fuel cx.sm env' (toSrcStmts body) k b) env')
     {st : SwSt} {s : St} {st' : SwSt} {s' : St} (hw : WaitOK st.waiting) (h : defaultStep endL false bodyM st s = .ok (st', s')) :
     SameStk s s' ∧ st'.waiting = [] ∧ ∃ hs d1 sL eB ops sa sb n0,
       st'.hdrJumps = st.hdrJumps ++ hs ∧
       st'.caseOps = st.caseOps ++ ([LItem.label sL false] ++ ops ++ [LItem.label eB false]) ∧ st'.defaultOps = d1 ∧
       WaitSem cx fuel sL st.waiting hs [LItem.ljump ⟨n0, Gen.op_jump, []⟩ (some sL)] d1 ∧ bodyM sa = .ok (ops, sb) ∧
-      (∀ env', EnvOK cx env' → PieceOK cx ops sa sb (fun k b => Src.trStmts fuel [] env' (toSrcStmts body) k b) env') ∧
+      (∀ env', EnvOK cx env' → PieceOK cx ops sa sb (fun k b => Src.trStmts fuel cx.sm env' (toSrcStmts body) k b) env') ∧
       sa.loops = s.loops ∧ sa.cases = endL :: s.cases ∧ NamedLe sb s' := by
   unfold defaultStep at h
   simp only [Bool.false_eq_true, ↓reduceIte, bind_ok, pushCase_ok, popCase_ok] at h
@@ -138,7 +138,7 @@ theorem defaultStep_c (cx : Cx) (fuel : Nat) (endL : Nat) (body : Stmts) {bodyM 
   obtain ⟨rfl, rfl⟩ := buildFor_none (b := defJmpBP) rfl h5
   obtain ⟨e6, ws⟩ := waiting_sem cx fuel sL _ _ _ _ _ _ hw h6
   have hP := fun env' he' => hBody env' he' _ _ _ hrun
-  have hP0 := hP {} (envOK_empty cx)
+  have hP0 := hP env0 he0
   have hstk : SameStk s s2.popCase := by
     refine ⟨?_, ?_, fun n id h => e2.3 n id (hP0.named n id h)⟩
     · show s2.loops = s.loops
